@@ -10,7 +10,9 @@
 (*                                                                             *)
 (* Stage        work items                      cases of an item               *)
 (*  "sec"       <<pfx>> || X (small curves)     alone, and followed by every Y *)
-(*  "toykey"    an exponent; an abscissa        range rule; every ordinate     *)
+(*  "secmut"    as "sec", for a sloppy decoder  (must VIOLATE the lemmas)      *)
+(*  "toykey"    an exponent; an abscissa; a     range rule; every ordinate;    *)
+(*              point                           Decode(Encode(P)) = P lemmas   *)
 (*  "sec256"    (length, prefix octet)          x class x y class x mode       *)
 (*  "wif"       a 32-byte exponent              payload shapes x prefix ok/bad *)
 (*  "der"       a blob prefix                   every extension over DerExt    *)
@@ -33,8 +35,8 @@ PosNone  == <<Only30>>
 PosShort == <<Set12, Set12>>                           \* with Sigma12^(0..3): every string of <= 5 octets over Sigma12
 PosGridQ == <<Only30, Set13, Set13, Set8>>             \* with Sigma8^(0..3): 30 .. of 4..7 octets
 PosGridT == <<Only30, Set13, Set13, Set8, Set8>>       \* with Sigma8^(0..3): 30 .. of 5..8 octets
-PosSigQ  == <<Only30, {5, 6, 7}, {2}, {1, 2}>>         \* with Sigma8^(0..5): 30 06 02 01 r 02 01 s and neighbours, <= 9 octets
-PosSigT  == <<Only30, {4, 5, 6, 7, 8, 129}, {2}, {0, 1, 2, 3, 129}>>   \* with Sigma8^(0..6): <= 10 octets
+PosSigQ  == <<Only30, {5, 6, 7}, {2}, {1, 2}, Set8, Set8>>          \* with Sigma8^(0..3): 30 06 02 01 r 02 01 s and neighbours, 6..9 octets
+PosSigT  == <<Only30, {4, 5, 6, 7, 8, 129}, {2}, {0, 1, 2, 3, 129}, Set8, Set8, Set8>>   \* with Sigma8^(0..3): 7..10 octets
 One0    == <<0>>
 AllBytes == 0..255
 SlicePfx == {0, 1, 2, 3, 4, 5, 6, 7, 8, 255}
@@ -66,12 +68,29 @@ SecEval(it) ==
 SecHeader == [k |-> "sechdr", p |-> P, a |-> A, b |-> B, gx |-> Gx, gy |-> Gy, n |-> N, cl |-> CL,
               pfx |-> SecPfx, xs |-> SecXs, ys |-> SecYs, longys |-> SecLongYs, npoints |-> Cardinality(Affine)]
 
+(* ================================================================ stage "secmut" *)
+\* Teeth of the lemmas: a decoder that reduces the coordinates modulo p instead of refusing
+\* x >= p (the slip the property's rationale names) must be caught by Canonical - this stage is
+\* EXPECTED to violate NoBad.
+LooseDecode(b) ==
+  IF Len(b) = 1 + CL /\ b[1] \in {2, 3} THEN
+       LET x == SecX(b) % P  ys == {y \in Ys(x) : y % 2 = b[1] - 2}
+       IN IF ys = {} THEN NoPt ELSE <<x, CHOOSE y \in ys : TRUE>>
+  ELSE SecDecode(b, TRUE)
+MutEval(it) ==
+  LET bs == SecBlobsOf(it)
+  IN [k |-> "secmut", it |-> it, bad |-> {b \in bs : ~CanonicalR(b, LooseDecode(b), LooseDecode(b))}]
+
 (* =============================================================== stage "toykey" *)
 ToySes == ((0 - 2)..(N + 2)) \cup {2 * N - 1, 2 * N, 2 * N + 1, 255, 256, 65535}
 ToyCoords == 0..(P + 2)
 ToyItems == {[t |-> "se", v |-> k] : k \in ToySes} \cup {[t |-> "pair", x |-> x] : x \in ToyCoords}
+            \cup {[t |-> "pt", pt |-> pt] : pt \in Affine}
 ToyEval(it) ==
-  IF it.t = "se"
+  IF it.t = "pt"            \* the per-point lemmas; the encodings of the point in the three forms
+  THEN [k |-> "toypt", pt |-> it.pt, c |-> SecEncode(it.pt, "c"), u |-> SecEncode(it.pt, "u"), h |-> SecEncode(it.pt, "h"),
+        bad |-> IF DecEncPt(it.pt) /\ NoLift(it.pt) THEN {} ELSE {it.pt}]
+  ELSE IF it.t = "se"
   THEN [k |-> "toyse", v |-> it.v, ok |-> SeOk(it.v), pub |-> IF SeOk(it.v) THEN PubOf(it.v) ELSE <<>>,
         bad |-> IF SeOk(it.v) /\ ~(PubOf(it.v) \in Affine /\ PairOk(PubOf(it.v)[1], PubOf(it.v)[2])) THEN {it.v} ELSE {}]
   ELSE [k |-> "toypair", x |-> it.x, n |-> Cardinality(ToyCoords),
@@ -94,7 +113,7 @@ Fields256(len, pfx, xc, yc) ==
   [shape |-> sh, pfx |-> IF len >= 1 THEN pfx ELSE -1,
    xlt |-> sh # "bad" /\ xc \in {"pt", "nopt"},
    ylt |-> sh = "u" /\ yc # "root+p",
-   haspt |-> sh # "bad" /\ xc = "pt",
+   haspt |-> sh = "c" /\ xc = "pt",
    onc |-> sh = "u" /\ xc = "pt" /\ yc \in {"even", "odd"},
    ypar |-> IF yc = "odd" THEN 1 ELSE 0]
 Sec256Items == {[len |-> l, pfx |-> a] : l \in Lens256, a \in KByte}
@@ -167,13 +186,13 @@ DerClass(run) == IF StrictValid(run) THEN "valid"
                  ELSE IF run.ph = "done" THEN "lax" ELSE "fail"
 DerEval(it) ==
   LET exts == DerExtsOf(it.pre)
-      runs == TLCEval([e \in exts |-> DerRun(it.pre \o e)])
+      rs == {<<e, DerRun(it.pre \o e)>> : e \in exts}          \* each blob parsed once
   IN [k |-> "der", pre |-> it.pre, n |-> Cardinality(exts),
-      valid |-> {[e |-> e, r |-> MagOf(runs[e].r), s |-> MagOf(runs[e].s)] : e \in {e \in exts : StrictValid(runs[e])}},
-      trailing |-> {e \in exts : HasTrailing(runs[e])},
+      valid |-> {[e |-> d[1], r |-> MagOf(d[2].r), s |-> MagOf(d[2].s)] : d \in {d \in rs : StrictValid(d[2])}},
+      trailing |-> {d[1] : d \in {d \in rs : HasTrailing(d[2])}},
       \* readable with other deviations (the property is silent) - kept for the report
-      lax |-> {[e |-> e, dev |-> runs[e].dev, r |-> runs[e].r, s |-> runs[e].s] : e \in {e \in exts : DerClass(runs[e]) = "lax"}},
-      bad |-> {e \in exts : ~(EncDecR(it.pre \o e, runs[e]) /\ PrefixLemmaR(it.pre \o e, runs[e]))}]
+      lax |-> {[e |-> d[1], dev |-> d[2].dev, r |-> d[2].r, s |-> d[2].s] : d \in {d \in rs : DerClass(d[2]) = "lax"}},
+      bad |-> {d[1] : d \in {d \in rs : ~(EncDecR(it.pre \o d[1], d[2]) /\ PrefixLemmaR(it.pre \o d[1], d[2]))}}]
 DerHeader == [k |-> "derhdr", pos |-> DerPos, ext |-> DerExt, extlen |-> DerExtLen]
 
 (* =============================================================== stage "dersig" *)
@@ -194,12 +213,14 @@ SigEval(it) ==
 
 (* ======================================================================= driver *)
 Items == CASE Stage = "sec"    -> SecItems
+           [] Stage = "secmut" -> SecItems
            [] Stage = "toykey" -> ToyItems
            [] Stage = "sec256" -> Sec256Items
            [] Stage = "wif"    -> WifItems
            [] Stage = "der"    -> DerItems
            [] Stage = "dersig" -> SigItems
 Eval(it) == CASE Stage = "sec"    -> SecEval(it)
+              [] Stage = "secmut" -> MutEval(it)
               [] Stage = "toykey" -> ToyEval(it)
               [] Stage = "sec256" -> Sec256Eval(it)
               [] Stage = "wif"    -> WifEval(it)
@@ -210,12 +231,9 @@ Header == CASE Stage = "sec" -> SecHeader
             [] Stage = "der" -> DerHeader
             [] OTHER -> [k |-> "hdr", stage |-> Stage]
 
-\* curve-wide lemmas, evaluated once
+\* (the per-point lemmas DecEncPt, NoLift and k*G on the curve are checked by the "toykey" items)
 ASSUME CurveLemmas == Stage \in {"sec", "toykey"} =>
           /\ Cardinality(Affine) = N - 1
-          /\ \A pt \in Affine : DecEncPt(pt) /\ NoLift(pt)
-          /\ \A k \in 1..(N - 1) : PubOf(k) \in Affine
-          /\ PubOf(0) = Inf /\ PubOf(N) = Inf
 ASSUME PrintT(ToJson(Header))
 
 Init == item \in Items /\ ph = 0 /\ res = <<>>
